@@ -38,7 +38,7 @@ void h128_update(h128 *h, const void *p, size_t len)
 		s += 8; len -= 8;
 	}
 	if (len) {
-		uint64_t w = 0; memcpy(&w, s, len);
+		uint64_t w = 0; for (size_t i = 0; i < len; i++) w |= (uint64_t)s[i] << (8 * i);   /* no libc call: the range may cross sanitizer redzones of a coroutine stack */
 		a = (rotl(a, 27) ^ w) * 0x9fb21c651e98df25ULL;
 		b = (rotl(b, 31) + w) * 0xff51afd7ed558ccdULL;
 	}
